@@ -100,17 +100,6 @@ pub fn handle(st: &mut State, toks: &[&str]) -> HResult {
             b!(d).extend(vs);
             ok()
         }
-        ["insert_stride", d, start, step, count] => {
-            // input-construction shorthand: `extend` with the arithmetic sequence start, start+step, …
-            let start: u64 = start.parse::<u32>().ok()? as u64;
-            let step: u64 = step.parse::<u32>().ok()? as u64;
-            let count: u64 = count.parse::<u32>().ok()? as u64;
-            if step == 0 || count > 70000 || start + step * count > 4294967296 {
-                return None;
-            }
-            b!(d).extend((0..count).map(|k| (start + step * k) as u32));
-            ok()
-        }
         ["from_iter", d, vs @ ..] => {
             let vs: Vec<u32> = nats(vs)?;
             st.bm[slot('b', d)?] = Some(vs.into_iter().collect());
